@@ -710,7 +710,9 @@ type replay struct {
 }
 
 func families(thorough bool) []bounds {
-	q := bounds{Name: "in-memory", Kinds: quickKinds, MinKinds: 2, MaxKinds: 3, MaxSec: 2, MaxOps: 3, MaxTotal: 3}
+	// quick: the 2-kind configurations are enumerated (with and without a second fault) by in-memory-two-faults;
+	// this family adds the 3-kind configurations with one section of <=3 operations (thorough: 2-3 kinds, 3 sections)
+	q := bounds{Name: "in-memory", Kinds: quickKinds, MinKinds: 3, MaxKinds: 3, MaxSec: 1, MaxOps: 3, MaxTotal: 3}
 	d := bounds{Name: "in-memory-two-faults", Kinds: quickKinds, MinKinds: 2, MaxKinds: 2, MaxSec: 2, MaxOps: 3, MaxTotal: 3, DoubleFault: true}
 	// a TCP mailbox pair on loopback next to a local / a ref-bound (refusable) local: the sender section sends and
 	// then fails (false await, or the sibling refuses an operation or its pre-commit after the send) on a connection
@@ -729,7 +731,7 @@ func families(thorough bool) []bounds {
 		return []bounds{tcp, crdt, pfn, q, d}
 	}
 	d.MaxKinds = 3
-	q.MaxSec, q.MaxTotal = 3, 4
+	q.MinKinds, q.MaxSec, q.MaxTotal = 2, 3, 4
 	slow := bounds{Name: "disk", Kinds: append(append([]string{}, slowKinds...), "local", "incmap", "inchan", "outchan"), MinKinds: 2, MaxKinds: 2, MaxSec: 2, MaxOps: 2, MaxTotal: 3, MustHave: slowKinds}
 	return []bounds{tcp, crdt, pfn, slow, d, q}
 }
@@ -828,12 +830,20 @@ func TestCheck(t *testing.T) {
 		var samples []any
 		perFamily := map[string]any{}
 		seenKeys := map[string]bool{}
-		if only := os.Getenv("VERIF_C01_FAMILY"); only == "" || only == "late" {
-			runLate(env, res, cov)
-		}
+		// the late-completion scenarios (late.go) mostly wait for timeouts of the code under test: they run next to
+		// the explorer families and are joined at the end
+		lateRes := &hres.Result{}
+		lateCov := map[string]any{}
+		lateDone := make(chan struct{})
+		go func() {
+			defer close(lateDone)
+			if only := os.Getenv("VERIF_C01_FAMILY"); only == "" || strings.Contains(","+only+",", ",late,") {
+				runLate(env, lateRes, lateCov)
+			}
+		}()
 		fams := families(env.Thorough())
 		for fi, b := range fams {
-			if only := os.Getenv("VERIF_C01_FAMILY"); only != "" && only != b.Name {
+			if only := os.Getenv("VERIF_C01_FAMILY"); only != "" && !strings.Contains(","+only+",", ","+b.Name+",") {
 				continue
 			}
 			cfgs := configs(b)
@@ -843,6 +853,7 @@ func TestCheck(t *testing.T) {
 				dl = time.Now().Add(time.Until(env.Deadline) / time.Duration(len(fams)-fi))
 			}
 			stt := explore.Run(mkBody(b, cfgs), explore.Options{Workers: env.Workers, Deadline: dl, Setup: setup, Samples: 2, MaxViol: 40})
+			closeBadgers()
 			evals += stt.Executions
 			distinct += stt.Outcomes
 			if !stt.Exhaustive {
@@ -864,6 +875,14 @@ func TestCheck(t *testing.T) {
 				cs, _ := v.Detail.(caseSpec)
 				res.Violations = append(res.Violations, hres.Viol{Key: v.Key, What: v.What, Replay: replay{Family: b.Name, Choices: v.Choices, Case: cs}})
 			}
+		}
+		<-lateDone
+		res.Violations = append(res.Violations, lateRes.Violations...)
+		for k, v := range lateCov {
+			cov[k] = v
+		}
+		if lc, ok := lateCov["late_completion"].(map[string]any); ok {
+			evals += int64(lc["map_slow_precommit_cases"].(int) + lc["nested_rounds_completed"].(int))
 		}
 		cov["evaluations"] = int(evals)
 		cov["distinct_nontrivial"] = distinct
